@@ -243,3 +243,29 @@ Proof.
     + apply compose_eval; [exact Wq|]. right. split; [exists j, b; exact E|exact Hv].
     + subst q. apply ev_mono_nz; [|exact Hv]. destruct Wq as [_ NZ]. inversion NZ; subst. assumption.
 Qed.
+
+(* p(q) of polynomials proper is a polynomial proper; hence the v = 0 case as well *)
+Lemma nonneg_coefn_neg r k : nonneg r -> (k < 0)%Z -> coefn r k = 0.
+Proof. intros N Hk. apply coefn_notin. intro I. pose proof (nonneg_keys r k N I). lia. Qed.
+Lemma nonneg_pcompose p q : wf q -> nonneg p -> nonneg q -> nonneg (pcompose p q).
+Proof.
+  intros Wq Np Nq. apply nonneg_of_coefn; [apply wf_pcompose|]. intros k Hk.
+  rewrite coefn_dot by apply wf_pcompose. rewrite dot_pcompose.
+  induction p as [|[k' c] r IH]; [reflexivity|]. cbn [fold_right fst snd].
+  inversion Np as [|? ? Hk' Nr]; subst. simpl in Hk'. rewrite (IH Nr).
+  rewrite <- (Z2Nat.id k' Hk'). rewrite (ppow_nfold_deq q (Z.to_nat k') Wq).
+  rewrite <- coefn_dot by apply wf_pow_spec.
+  rewrite (nonneg_coefn_neg _ k (nonneg_pow_spec q _ Nq) Hk). ring.
+Qed.
+Lemma compose_peval_full m1 m2 m3 p q v : wf p -> wf q ->
+  (nonneg p /\ (v <> 0 \/ nonneg q)) \/ ((exists j b, q = [(j, b)]) /\ v <> 0) ->
+  peval m1 (pcompose p q) v = peval m2 p (peval m3 q v).
+Proof.
+  intros Wp Wq C. destruct (Qc_eq_dec v 0) as [E|E].
+  - subst v. destruct C as [[Np [D|Nq]]|[_ D]]; try (contradiction D; reflexivity).
+    rewrite (peval_ev m1); [|apply wf_pcompose|right; apply nonneg_pcompose; assumption].
+    rewrite (peval_ev m3); [|apply Wq|right; exact Nq].
+    rewrite (peval_ev m2); [|apply Wp|right; exact Np].
+    apply compose_eval; [exact Wq|]. left. split; [exact Np|right; exact Nq].
+  - apply compose_peval; try assumption. destruct C as [[Np _]|[M _]]; [left; exact Np|right; exact M].
+Qed.
